@@ -13,7 +13,7 @@ KIND_SQL = {
     'set': "SET statement_timeout TO 1234",
     'copyin': 'COPY t FROM STDIN',
     'big': 'SELECT 1 /*v:rows=4,size=3000*/',
-    'slow': 'SELECT 1 /*v:sleep=1500*/',
+    'slow': 'SELECT 1 /*v:sleep=720*/',
 }
 SET_VARIANTS = ["SET statement_timeout TO 1234", "SET work_mem TO '8MB'", "SET search_path TO other",
                 "SET lock_timeout = 77", "SET extra_float_digits TO 3"]
@@ -41,12 +41,19 @@ def run_scenario(item):
         if ps_cache == 0 and early_variant != 'close_panic':
             early_variant = 'close_panic'
     general = {'connect_timeout': 500}
-    kinds_used = {s2.get('k') for s2 in steps if s2['op'] == 'send'}
+    kinds_used = {s2.get('k') for s2 in steps if s2['op'] in ('send', 'send_vanish')}
     user_extra = {}
     if 'slow' in kinds_used:
         user_extra['statement_timeout'] = 400
     if 'idle_tx_timeout' in ops:
         general['idle_client_in_transaction_timeout'] = 1500
+    long_waits = 'slow' in kinds_used or bool({'idle_tx_timeout', 'checkout_timeout'} & set(ops))
+    if 'reap' in ops and long_waits:
+        # keep the reaper out of histories that wait for other timers: the remaining steps are still a behaviour
+        steps = [s2 for s2 in steps if s2['op'] != 'reap']
+        ops = [s2['op'] for s2 in steps]
+    if 'reap' in ops:
+        general['idle_timeout'] = 300
     obs = []          # client-side observations / anomalies
     out = {'id': item['id'], 'obs': obs, 'cfg': {'mode': mode, 'pool_size': pool_size, 'ps_cache': ps_cache,
                                                  'early': early_variant}}
@@ -61,6 +68,7 @@ def run_scenario(item):
         incopy = {}
         prev_state = {}
         waited = set()
+        settles = []      # (number of hook events seen, pids of clients the model says hold no server)
 
         def note(kind, **kw):
             obs.append(dict(kind=kind, **kw))
@@ -111,6 +119,29 @@ def run_scenario(item):
                         clients[n2].close()
                         # let the late reply of the abandoned statement arrive at (or be discarded with) the connection
                         time.sleep(1.3)
+                # binding of the model's "this client holds no server" to the pooler's own bookkeeping: wait (briefly)
+                # until the hooks show every such client's last checkout put back, then mark the position
+                idle_now = [n2 for n2, pcv in st['pcs'].items()
+                            if pcv == 'idle' and n2 in clients and n2 not in outstanding and not clients[n2].dead]
+                if idle_now and mode == 'transaction':
+                    ports = {clients[n2].local_port: n2 for n2 in idle_now}
+                    deadline = time.time() + 1.0
+                    while True:
+                        hs = w.hooks()
+                        pid_of = {ports[h['cid']]: h['pid'] for h in hs if h['ev'] == 'startup_ok' and h.get('cid') in ports}
+                        holding = []
+                        for n2, p2 in pid_of.items():
+                            last_co = None
+                            for h in hs:
+                                if h['ev'] == 'checkout_ok' and h['pid'] == p2:
+                                    last_co = h
+                            if last_co is not None and not any(h['ev'] == 'put_back' and h['spid'] == last_co['spid']
+                                                               and h['seq'] > last_co['seq'] for h in hs):
+                                holding.append(n2)
+                        if not holding or time.time() > deadline:
+                            break
+                        time.sleep(0.01)
+                    settles.append((len(hs), [pid_of[n2] for n2 in idle_now if n2 in pid_of]))
                 prev_state = st
                 continue
             if op == 'connect':
@@ -128,6 +159,10 @@ def run_scenario(item):
                 elif k == 'copyfail':
                     c.send(W.CopyData(b'1\n') + W.CopyFail('client gave up'))
                     outstanding[name] = [c.serial]
+                elif k == 'local':
+                    # a batch the pooler answers itself: a lone Sync
+                    c.send(W.Sync())
+                    outstanding[name] = []
                 else:
                     if k == 'set':
                         sql = rng.choice(SET_VARIANTS) + ' ' + c.tag()
@@ -149,6 +184,33 @@ def run_scenario(item):
                         serials = [c.serial]
                     c.send(W.Q(sql))
                     outstanding[name] = serials
+            elif op == 'send_vanish':
+                # the client sends a message and its socket is reset while the message is being served
+                c = clients[name]
+                k = st['k']
+                base = {'set': SET_VARIANTS[0], 'stmt': 'SELECT 1', 'prep': PREP_VARIANTS[0]}.get(k) or KIND_SQL[k]
+                if k != 'slow':
+                    base += ' /*v:sleep=150*/'
+                sql = base + ' ' + c.tag()
+                mark = w.log.mark()
+                c.send(W.Q(sql))
+                w.wait_backend_event(lambda e: e.get('ev') == 'exec' and e.get('client') == name and e.get('n') == c.serial,
+                                     timeout=0.4, since=mark)
+                w.log.add(ev='closing', client=name)
+                c.abort()
+                outstanding.pop(name, None)
+                time.sleep(0.25 if k != 'slow' else 0.5)
+            elif op == 'vanish':
+                c = clients[name]
+                w.log.add(ev='closing', client=name)
+                c.abort()
+                outstanding.pop(name, None)
+            elif op == 'reap':
+                # let idle_timeout pass: the pool's reaper closes every idle server connection
+                since = len(w.hooks())
+                time.sleep(0.75)
+                if not w.wait_hook(lambda h: h['ev'] == 'server_drop', timeout=1.5, since=0 if since == 0 else w.hooks()[since - 1]['seq']):
+                    note('reaper_did_not_close_idle_connection')
             elif op == 'leave':
                 c = clients[name]
                 w.log.add(ev='closing', client=name)
@@ -249,16 +311,20 @@ def run_scenario(item):
                     continue
                 probes.append(z)
                 w.log.add(ev='client_connected', client=z.name)
-                r1 = z.query('BEGIN')
-                r2 = z.query('SELECT 1') if r1.end == 'Z' else r1
+                def probe_query(z, sql):
+                    # whatever result rows come back must have been produced for this very statement
+                    rep = z.query(sql)
+                    for e in rep.echoes():
+                        w.log.add(ev='result', client=z.name, n=z.serial, echo_c=e.get('c', ''), echo_n=e.get('n', -1))
+                    return rep
+                r1 = probe_query(z, 'BEGIN')
+                r2 = probe_query(z, 'SELECT 1') if r1.end == 'Z' else r1
                 if r2.end != 'Z' or any('could not get connection' in (e.get('M') or '') for e in r1.errors + r2.errors):
                     note('capacity_lost', probe=i, of=pool_size, got=(r1.brief() + ' / ' + r2.brief())[:160])
-                else:
-                    for e in r2.echoes():
-                        w.log.add(ev='result', client=z.name, n=e.get('n') if e.get('c') == z.name else z.serial,
-                                  echo_c=e.get('c', ''), echo_n=e.get('n', -1))
             for z in probes:
-                z.query('COMMIT')
+                rep = z.query('COMMIT')
+                for e in rep.echoes():
+                    w.log.add(ev='result', client=z.name, n=z.serial, echo_c=e.get('c', ''), echo_n=e.get('n', -1))
                 w.log.add(ev='closing', client=z.name)
                 z.close()
             deadline = time.time() + 3.0
@@ -275,7 +341,7 @@ def run_scenario(item):
         be_events = w.log.snapshot()
         if not out['alive']:
             note('pgcat_died', log=w.read_log()[-1500:])
-        out['hook_trace'] = hook_trace(hooks, item['id'], pool_size, mode, be_events)
+        out['hook_trace'] = hook_trace(hooks, item['id'], pool_size, mode, be_events, settles)
         out['backend_trace'] = backend_trace(be_events, item['id'], pool_size, mode, ps_cache > 0)
         out['n_hooks'] = len(hooks)
         out['n_backend'] = len(be_events)
@@ -285,7 +351,7 @@ def run_scenario(item):
     return out
 
 
-def hook_trace(hooks, sc, pool_size, mode, be_events=()):
+def hook_trace(hooks, sc, pool_size, mode, be_events=(), settles=()):
     """Renumber ids and keep the events Trace_PoolCore's hook family understands."""
     pid = {}
     spid = {}
@@ -323,7 +389,12 @@ def hook_trace(hooks, sc, pool_size, mode, be_events=()):
     for s0 in be_events:
         if s0['ev'] == 'connect' and 'key' in s0:
             keys[s0['spid']] = s0['key']
-    for h in hooks:
+    marks = {}
+    for pos, pids in settles:
+        marks.setdefault(pos, []).append(pids)
+    for hi, h in enumerate(list(hooks) + [{'ev': '_end'}]):
+        for pids in marks.get(hi, []):
+            recs.append({'ev': 'settle', 'idle': [P(x) for x in pids]})
         ev = h['ev']
         if ev == 'server_connect':
             recs.append({'ev': ev, 's': S(h['spid'])})
